@@ -239,3 +239,4 @@ def run(col, configs, tier):
         from rules import extra as X2
         guarded(col, X2.rule_unchecked_window, facts)
         guarded(col, X2.rule_sign_in_accumulation, facts)
+        guarded(col, X2.rule_suffix_step, facts)
